@@ -4,7 +4,8 @@ from __future__ import annotations
 
 import ast
 
-from ..model import ClassInfo, FuncInfo, Program, call_name, norm
+from ..model import AnalysisError, ClassInfo, FuncInfo, Program, call_name, norm
+from ..report import Report
 
 WRITE_CALLS = {"_set_node_attr", "_set_nodes_attr", "_set_edge_attr", "_set_edges_attr"}
 
@@ -63,3 +64,92 @@ def update_guards(P: Program, R, a: ClassInfo, rule: str) -> None:
 
 def calls_to(f: FuncInfo, name: str) -> list[ast.Call]:
     return [c for c in ast.walk(f.node) if isinstance(c, ast.Call) and call_name(c) == name]
+
+
+MUTATORS = ("add", "update", "append", "extend", "insert", "setdefault", "__setitem__")
+UNMUTATORS = ("discard", "remove", "clear", "difference_update", "pop", "popitem", "intersection_update")
+
+
+def _self_attr(e: ast.AST) -> str | None:
+    while isinstance(e, ast.Subscript):
+        e = e.value
+    if isinstance(e, ast.Attribute) and isinstance(e.value, ast.Name) and e.value.id == "self":
+        return e.attr
+    return None
+
+
+def _own_closure(P: Program, ann, entry: str, depth: int = 2):
+    """the method `entry` of the class plus same-class helpers it calls (bounded depth)"""
+    out, todo = [], [(P.lookup_method(ann.qname, entry), 0)]
+    seen = set()
+    while todo:
+        m, d = todo.pop()
+        if m is None or m.qname in seen:
+            continue
+        seen.add(m.qname)
+        out.append(m)
+        if d < depth:
+            for c in ast.walk(m.node):
+                if isinstance(c, ast.Call) and isinstance(c.func, ast.Attribute) and isinstance(c.func.value, ast.Name) and c.func.value.id == "self":
+                    todo.append((P.lookup_method(ann.qname, c.func.attr), d + 1))
+    return out
+
+
+def compute_is_memoryless(P: Program, R: Report, ann, rule: str) -> None:
+    """compute(keys) must (re)compute every requested active key from the CURRENT state.  A 'done already' memo - an
+    instance attribute that compute itself fills and then consults to decide what to skip - is only sound if it is
+    emptied whenever the values stop being maintained, i.e. when the feature is deactivated (update() maintains
+    active features only).  rule: attribute both filled and consulted inside compute => some deactivate path clears it."""
+    comp = P.lookup_method(ann.qname, "compute")
+    if comp is None:
+        raise AnalysisError(f"{ann.name} has no compute()")
+    body = _own_closure(P, ann, "compute")
+    filled: dict[str, ast.AST] = {}
+    consulted: dict[str, ast.AST] = {}
+    for m in body:
+        for x in ast.walk(m.node):
+            if isinstance(x, ast.Call) and isinstance(x.func, ast.Attribute) and x.func.attr in MUTATORS:
+                a = _self_attr(x.func.value)
+                if a:
+                    filled.setdefault(a, x)
+            if isinstance(x, (ast.Assign, ast.AugAssign)):
+                for t in (x.targets if isinstance(x, ast.Assign) else [x.target]):
+                    a = _self_attr(t)
+                    if a:
+                        filled.setdefault(a, x)
+            tests = []
+            if isinstance(x, (ast.If, ast.While, ast.IfExp)):
+                tests.append(x.test)
+            if isinstance(x, ast.comprehension):
+                tests += x.ifs
+            for t in tests:
+                for y in ast.walk(t):
+                    a = _self_attr(y) if isinstance(y, (ast.Attribute, ast.Subscript)) else None
+                    if a:
+                        consulted.setdefault(a, t)
+    memo = sorted(set(filled) & set(consulted))
+    if not memo:
+        R.ok(rule, comp, comp.node, f"{ann.name}.compute keeps no memo of what it computed before (nothing it fills decides what it skips)",
+             f"fills {sorted(filled)}, consults {sorted(consulted)}", via="def-use")
+        return
+    deact = _own_closure(P, ann, "deactivate_features")
+    for a in memo:
+        cleared = False
+        for m in deact:
+            for x in ast.walk(m.node):
+                if isinstance(x, ast.Call) and isinstance(x.func, ast.Attribute) and x.func.attr in UNMUTATORS and _self_attr(x.func.value) == a:
+                    cleared = True
+                if isinstance(x, ast.Delete) and any(_self_attr(t) == a for t in x.targets):
+                    cleared = True
+                if isinstance(x, ast.Assign) and any(_self_attr(t) == a and not isinstance(t, ast.Subscript) for t in x.targets):
+                    cleared = True
+        # attributes that compute rebuilds from scratch (assigned, not accumulated) are results, not memos
+        rebuilt = isinstance(filled[a], ast.Assign) and any(isinstance(t, ast.Attribute) and _self_attr(t) == a for t in filled[a].targets)
+        if rebuilt:
+            R.ok(rule, comp, filled[a], f"{ann.name}.compute rebuilds self.{a} from scratch", via="def-use")
+        elif cleared:
+            R.ok(rule, comp, consulted[a], f"{ann.name}: the memo self.{a} is emptied when features are deactivated", via="def-use")
+        else:
+            R.fail(rule, comp, consulted[a], f"{ann.name}.compute recomputes every requested active key from the current state",
+                   f"compute fills self.{a} and consults it (`{norm(consulted[a])[:70]}`) to skip work, and no deactivate path empties it: after "
+                   "disable -> edit -> enable the skipped keys keep their values from before the edit")
